@@ -247,17 +247,29 @@ def check(env, rep, tier):
                         ok_true = ok_false = False
             # who may touch the reply: besides the three direct stores, set_content_format is the only callee handed the packet
             touch = []
-            for bb in af["blocks"]:
-                t = bb["term"]
-                if t["k"] != "call" or bb.get("cleanup"):
-                    continue
-                c = t.get("resolved") or t.get("callee") or {}
-                atys = []
-                for a_ in t["args"]:
-                    if a_["k"] in ("copy", "move") and not a_["place"]["p"]:
-                        atys.append(prog.types[af["locals"][a_["place"]["l"]]["ty"]]["s"])
-                if any(x in ("&mut packet::Packet", "&mut response::CoapResponse") for x in atys) and c.get("path") not in ("packet::Packet::set_content_format", "response::CoapResponse::set_status"):   # set_status: code only (C19.2)
-                    touch.append(c.get("path"))
+
+            def collect_touch(fb, depth=0):
+                for bb in fb["blocks"]:
+                    t = bb["term"]
+                    if t["k"] != "call" or bb.get("cleanup"):
+                        continue
+                    c = t.get("resolved") or t.get("callee") or {}
+                    atys = []
+                    for a_ in t["args"]:
+                        if a_["k"] in ("copy", "move") and not a_["place"]["p"]:
+                            atys.append(prog.types[fb["locals"][a_["place"]["l"]]["ty"]]["s"])
+                    if any(x in ("&mut packet::Packet", "&mut response::CoapResponse") for x in atys) and c.get("path") not in ("packet::Packet::set_content_format", "response::CoapResponse::set_status"):   # set_status: code only (C19.2)
+                        # a private helper of the request / response types that was handed the reply is looked into
+                        # (the semantic rule above has executed it; here: whom does it hand the reply on to)
+                        cb = prog.bodies.get(c.get("id")) if c.get("local") else None
+                        if cb is not None and depth < 2 and cb["path"].startswith(("response::CoapResponse::", "request::CoapRequest::")) and not cb.get("pub_api"):
+                            collect_touch(cb, depth + 1)
+                        else:
+                            touch.append(c.get("path"))
+            collect_touch(af)
+            for x in reachable(prog, af):
+                if x["id"] != af["id"] and x["path"].startswith(af["path"] + "::{closure"):
+                    collect_touch(x)
             rep.ob("C07.6", "touches-only", not touch,
                    "apply_from_error hands the reply to %s: more than the code, the diagnostic payload and the content format can change "
                    "(options the handler had set are lost or altered)" % touch, site6)
